@@ -54,8 +54,10 @@ type zzSentC17 struct {
 	seq       int
 	target    int
 	hasSender bool
-	expect    int // 0 delivered, 1 dead letter (peer unreachable at that moment), 2 unknown (connection killed before arrival)
-	conn      int // generation of the A->B connection it was handed to
+	relay     bool // the sender is an actor on B that is itself a target (A relays on its behalf)
+	empty     bool // a TestMessage with no data: it serialises to zero bytes
+	expect    int  // 0 delivered, 1 dead letter (peer unreachable at that moment), 2 unknown (connection killed before arrival)
+	conn      int  // generation of the A->B connection it was handed to
 }
 
 func ZZ_C17() {
@@ -94,11 +96,30 @@ func ZZ_C17() {
 	panicked := false
 
 	send := func() {
-		s := zzSentC17{seq: seq, target: zzrt.Choose(2), hasSender: zzrt.NondetBool("withSender")}
+		// six kinds of message: {target 0, target 1} x {no sender, sender a/0 on A}, a message to target 1 relayed on
+		// behalf of target 0 (its sender is itself a target on the peer), an empty message to target 0
+		var s zzSentC17
+		nk := 4
+		if zzrt.Param("EMPTY") == 1 {
+			nk = 6
+		}
+		k := zzrt.Choose(nk)
+		if k == 4 {
+			s = zzSentC17{seq: seq, target: 1, hasSender: true, relay: true}
+			zzrt.Reach("sender-is-a-target-on-the-peer")
+		} else if k == 5 {
+			s = zzSentC17{seq: seq, target: 0, empty: true}
+			zzrt.Reach("empty-message")
+		} else {
+			s = zzSentC17{seq: seq, target: k % 2, hasSender: k >= 2}
+		}
 		seq++
 		var snd *actor.PID
 		if s.hasSender {
 			snd = senderA
+			if s.relay {
+				snd = actor.NewPID(B.name, tb[0].Pid.ID)
+			}
 		}
 		switch {
 		case haveWriter:
@@ -112,7 +133,11 @@ func ZZ_C17() {
 			unreachable++
 		}
 		sent = append(sent, s)
-		A.ze.E.SendWithSender(actor.NewPID(B.name, tb[s.target].Pid.ID), &TestMessage{Data: []byte{byte(s.seq)}}, snd)
+		msg := &TestMessage{Data: []byte{byte(s.seq)}}
+		if s.empty {
+			msg = &TestMessage{}
+		}
+		A.ze.E.SendWithSender(actor.NewPID(B.name, tb[s.target].Pid.ID), msg, snd)
 	}
 
 	for step := 0; step < K; step++ {
@@ -124,7 +149,7 @@ func ZZ_C17() {
 			send()
 			if !wasUp {
 				// the second message of a burst towards an unreachable peer is handed to the same failed attempt
-				s := zzSentC17{seq: seq, target: zzrt.Choose(2), hasSender: zzrt.NondetBool("withSender"), expect: 1}
+				s := zzSentC17{seq: seq, target: zzrt.Choose(2), hasSender: zzrt.Choose(2) == 1, expect: 1}
 				seq++
 				var snd *actor.PID
 				if s.hasSender {
@@ -197,12 +222,17 @@ func ZZ_C17() {
 
 	zzrt.Assert(!panicked, "C17:stream-reader-panics")
 	// (i) delivery: exactly once, in order per target, with the sender given
+	gotEmpty := make([]int, len(tb))
 	for k, p := range tb {
 		last := -1
 		for _, g := range p.Got {
 			m, ok := g.Msg.(*TestMessage)
-			zzrt.Assert(ok && len(m.Data) == 1, "C17:delivered-something-else")
-			if !ok || len(m.Data) != 1 {
+			zzrt.Assert(ok && len(m.Data) <= 1, "C17:delivered-something-else")
+			if !ok || len(m.Data) > 1 {
+				continue
+			}
+			if len(m.Data) == 0 {
+				gotEmpty[k]++
 				continue
 			}
 			sq := int(m.Data[0])
@@ -215,18 +245,35 @@ func ZZ_C17() {
 			}
 			last = sq
 			zzrt.Assert(sent[sq].expect != 1, "C17:message-to-unreachable-peer-delivered-and-dead-lettered")
-			if sent[sq].hasSender {
+			if sent[sq].hasSender && sent[sq].relay {
+				zzrt.Assert(g.Sender != nil && g.Sender.Address == B.name && g.Sender.ID == tb[0].Pid.ID, "C17:sender-lost-or-changed")
+			} else if sent[sq].hasSender {
 				zzrt.Assert(g.Sender != nil && g.Sender.Address == A.name && g.Sender.ID == "a/0", "C17:sender-lost-or-changed")
 			} else {
 				zzrt.Assert(g.Sender == nil, "C17:message-without-sender-arrives-with-one")
 			}
 		}
 	}
+	wantEmpty, maybeEmpty := make([]int, len(tb)), make([]int, len(tb))
 	for _, s := range sent {
+		if s.empty {
+			// empty messages carry no number: they are counted per target
+			switch s.expect {
+			case 0:
+				wantEmpty[s.target]++
+			case 2:
+				maybeEmpty[s.target]++
+			}
+			continue
+		}
 		if s.expect == 0 {
 			zzrt.Assert(s.arrived(tb), "C17:message-lost-while-connection-up")
 			zzrt.Reach("delivered")
 		}
+	}
+	for k := range tb {
+		zzrt.Assert(gotEmpty[k] >= wantEmpty[k], "C17:empty-message-lost-while-connection-up")
+		zzrt.Assert(gotEmpty[k] <= wantEmpty[k]+maybeEmpty[k], "C17:empty-message-duplicated")
 	}
 	// (ii) unreachable peer: one RemoteUnreachableEvent per failed attempt / broken connection, one dead letter per
 	// message handed to a failed attempt
@@ -247,6 +294,9 @@ func ZZ_C17() {
 	}
 	zzrt.Assert(nUnreach == unreachable, "C17:unreachable-peer-not-reported-once-per-failed-attempt")
 	for _, s := range sent {
+		if s.empty {
+			continue
+		}
 		if s.expect == 1 {
 			zzrt.Assert(dead[s.seq] == 1, "C17:message-to-unreachable-peer-not-dead-lettered-exactly-once")
 			zzrt.Reach("dead-lettered")
